@@ -24,7 +24,7 @@ def configs(tier):
     cs = [dict(gap=1, pace=1), dict(gap=4, pace=1), dict(gap=2, pace=8)]
     if tier == "thorough":
         cs += [dict(gap=1, pace=2), dict(gap=7, pace=1), dict(gap=3, pace=8, ready=8)]
-    for c in cs: c["depth"] = 4 if tier == "quick" else 6
+    for c in cs: c["depth"] = 4 if tier == "quick" else 5
     return cs
 
 
